@@ -98,6 +98,8 @@ func (e *Eval) Prepare(flags ...[]byte) error {
 
 	e.mutex.Lock()
 	defer e.mutex.Unlock()
+	verifLock(e, "lock")
+	defer verifLock(e, "unlock")
 
 	//
 	// Default to optimizing the bytecode.
@@ -329,6 +331,7 @@ func (e *Eval) Execute(obj interface{}) (out object.Object, error error) {
 func (e *Eval) Run(obj interface{}) (bool, error) {
 
 	e.mutex.Lock()
+	verifLock(e, "lock")
 
 	//
 	// Execute the script, getting the resulting error
@@ -336,6 +339,7 @@ func (e *Eval) Run(obj interface{}) (bool, error) {
 	//
 	out, err := e.Execute(obj)
 
+	verifLock(e, "unlock")
 	e.mutex.Unlock()
 
 	//
